@@ -94,7 +94,7 @@ fn main() {
                     checks_e5::Plan {
                         prop: "C06",
                         level: "exploration",
-                        rule: "cases on a real serve process with five contexts (zero, two appended, two numerically adjacent ids registered by import); the same topics are written in every context and every frame carries a tag naming its context; access paths observed per context: Store read_sync/read with last-id (own and foreign ids) and limit, head, five followers (plain, tail, heartbeat, limit) covering history and live delivery, HTTP GET /?context-id= (NDJSON and SSE, with limit), GET /head/{t}?context= with and without follow, handlers with the same name in two contexts (dispatch, .cat / .cat --limit / .head / .head --context inside the script, an explicit .append --context <other>), a command (outputs, .cat/.head inside), a generator; any frame whose tag or context differs from the scope is a violation; non-trivial = case with >50 scoped observations and both handlers reporting; distinct by seed",
+                        rule: "cases on a real serve process with seven contexts (zero, two appended, and two pairs of numerically adjacent ids registered by import whose increment carries over one and over two bytes: ..FF/..00 and ..FFFF/..0000); the same topics are written in every context and every frame carries a tag naming its context; access paths observed per context: Store read_sync/read with last-id (own and foreign ids) and limit, head, five followers (plain, tail, heartbeat, limit) covering history and live delivery, HTTP GET /?context-id= (NDJSON and SSE, with limit), GET /head/{t}?context= with and without follow, handlers with the same name in two contexts (dispatch, .cat / .cat --limit / .head / .head --context inside the script, an explicit .append --context <other>), a command (outputs, .cat/.head inside), a generator; any frame whose tag or context differs from the scope is a violation; non-trivial = case with >50 scoped observations and both handlers reporting; distinct by seed",
                         quick: 24,
                         thorough: 240,
                         par: 12,
